@@ -583,3 +583,42 @@ impl AsyncWrite for Duplex {
     }
 }
 
+
+#[kani::proof]
+#[kani::unwind(8)]
+// bound: Take(limit) over a chunking source that fails one read with Interrupted or a hard error at a solver-chosen call; three reads into [u8; 2]
+// claim: a failed read does not count against the limit: limit decreases exactly by the bytes delivered, and after the fault the remaining bytes up to the limit are still readable
+pub fn c11_q_take_faults() {
+    let src = Src::any(1, 1);
+    let limit: u64 = kani::any();
+    kani::assume(limit <= 8);
+    let mut t = src.take(limit);
+    let mut delivered = 0usize;
+    let mut failed = 0u8;
+    let mut k = 0;
+    while k < 3 {
+        let BufResult(r, d) = block_on(t.read([0u8; 2]));
+        match r {
+            Ok(n) => {
+                assert!(n <= 2 && (delivered + n) as u64 <= limit);
+                let i: usize = kani::any();
+                kani::assume(i < 2);
+                if i < n {
+                    assert!(d[i] == t.get_ref().data[delivered + i], "byte misplaced after a failed read");
+                }
+                delivered += n;
+            }
+            Err(e) => {
+                let kd = kind_of(e);
+                assert!(kd == std::io::ErrorKind::Interrupted || kd == HARD);
+                failed += 1;
+            }
+        }
+        assert!(t.limit() == limit - delivered as u64, "limit changed by something other than delivered bytes");
+        assert!(t.get_ref().pos == delivered, "bytes consumed != bytes delivered");
+        k += 1;
+    }
+    kani::cover!(failed == 1 && delivered == 4);
+    kani::cover!(failed == 2);
+    std::mem::forget(t);
+}
